@@ -23,6 +23,56 @@ pub broadcast proof fn axiom_char_slice_bytes(s: &[char])
 pub assume_specification<T: PartialEq> [<[T]>::contains] (s: &[T], x: &T) -> (b: bool);
 '''
 
+OFFSETS = r'''
+// ---- "each word at its true offset": what the line-based comment parser returns, as a function of the text, of the inner
+// parser's result (sp_parse) and of which characters without_initiators strips (wi: specification-only name of its result) ----
+pub uninterp spec fn wi(source: Seq<char>) -> Span;
+pub open spec fn is_fence(line: Seq<char>) -> bool {
+    let a = wi(line);
+    a.start < a.end && a.end - a.start >= 3 && line[a.start as int] == '`' && line[a.start + 1] == '`' && line[a.start + 2] == '`'
+}
+pub open spec fn line_toks(p: &dyn Parser, line: Seq<char>) -> Seq<Token> {
+    let a = wi(line);
+    if a.start == a.end { Seq::empty() } else { shift_all(p.sp_parse(line.subrange(a.start as int, a.end as int)), a.start as int) }
+}
+pub open spec fn line_end(s: Seq<char>, a: int) -> int
+    decreases s.len() - a
+{
+    if a < 0 || a >= s.len() { s.len() as int } else if s[a] == '\n' { a } else { line_end(s, a + 1) }
+}
+pub proof fn lemma_line_end(s: Seq<char>, a: int)
+    requires 0 <= a <= s.len(),
+    ensures a <= line_end(s, a) <= s.len(), forall|k: int| a <= k < line_end(s, a) ==> s[k] != '\n', line_end(s, a) < s.len() ==> s[line_end(s, a)] == '\n',
+    decreases s.len() - a
+{
+    if a < s.len() && s[a] != '\n' { lemma_line_end(s, a + 1); }
+}
+// the scan of the desugared split loop stops exactly at line_end
+pub proof fn lemma_line_end_is(s: Seq<char>, a: int, e: int)
+    requires 0 <= a <= e <= s.len(), forall|k: int| a <= k < e ==> s[k] != '\n', e < s.len() ==> s[e] == '\n',
+    ensures line_end(s, a) == e,
+    decreases e - a
+{
+    if a < e { lemma_line_end_is(s, a + 1, e); }
+}
+pub open spec fn nl_tok(at: int) -> Token { Token { span: Span { start: at as usize, end: (at + 1) as usize }, kind: TokenKind::Newline(1) } }
+// what Unit::parse returns for the text from line start `a` on, given the fence state before that line
+pub open spec fn unit_toks(p: &dyn Parser, s: Seq<char>, a: int, fence: bool) -> Seq<Token>
+    decreases s.len() - a + 1
+{
+    if a < 0 || a > s.len() { Seq::empty() } else {
+        let e = line_end(s, a);
+        let line = s.subrange(a, e);
+        let f2 = if is_fence(line) { !fence } else { fence };
+        let here = if f2 { Seq::empty() } else {
+            shift_all(line_toks(p, line) + (if e < s.len() { seq![nl_tok(e - a)] } else { Seq::<Token>::empty() }), a)
+        };
+        if a <= e < s.len() { here + unit_toks(p, s, e + 1, f2) } else { here }
+    }
+}
+
+'''
+
 SHIFT_INV = lambda by, bound: [
     'new_tokens@.len() == nt0.len()',
     f'forall|j: int| 0 <= j < nt0.len() ==> span_in((#[trigger] nt0[j]).span, {bound})',
@@ -32,7 +82,9 @@ SHIFT_INV = lambda by, bound: [
 
 PARSE_LINE = dict(
     result='r', props=['C01', 'C02', 'C04'],
-    ensures=['toks_ok(r@, source@.len() as int)'],
+    ensures=['toks_ok(r@, source@.len() as int)',
+             # the inner parser's tokens for the text behind the comment markers, each moved by exactly the width of the markers
+             'parser.sp_det() ==> r@ == line_toks(&*parser, source@)'],
     for_each=[dict(invariant=['actual.start <= actual.end', 'actual.end <= src0.len()', 'ordered(nt0)'] + SHIFT_INV('actual.start', 'actual.end - actual.start'),
                    body_proof='assert(span_in(nt0[__i - 1].span, actual.end - actual.start));')],
     proofs=[dict(at='body_start', kind='ghost', text='let ghost src0 = source@;'),
@@ -47,10 +99,20 @@ UNIT_PARSE = dict(
     loops={1: dict(desugar='R10', invariant=[
         'source@.len() * 8 <= usize::MAX',
         '!__fin ==> chars_traversed == __s', '__fin ==> chars_traversed == source@.len() + 1',
-        'toks_ok(tokens@, source@.len() as int)', 'toks_before(tokens@, imin(chars_traversed as int, source@.len() as int))'])},
+        'toks_ok(tokens@, source@.len() as int)', 'toks_before(tokens@, imin(chars_traversed as int, source@.len() as int))',
+        'total == unit_toks(&*self.inner, source@, 0, false)',
+        'self.inner.sp_det() && !__fin ==> tokens@ + unit_toks(&*self.inner, source@, __s as int, in_code_fence) == total',
+        'self.inner.sp_det() && __fin ==> tokens@ == total'],
+        scan_invariant=["forall|__q: int| __s <= __q < __e ==> #[trigger] source@[__q] != '\\n'"],
+        scan_ensures=["__e < source@.len() ==> source@[__e as int] == '\\n'"])},
     for_each=[dict(invariant=['chars_traversed <= source@.len()', 'source@.len() * 8 <= usize::MAX'] + SHIFT_INV('chars_traversed', 'source@.len() - chars_traversed'),
                    body_proof='assert(span_in(nt0[__i - 1].span, source@.len() - chars_traversed));')],
     proofs=[dict(at='body_start', kind='broadcast', text='broadcast use axiom_char_slice_bytes;'),
+            dict(before='for line in', kind='ghost', text='let ghost total = unit_toks(&*self.inner, source@, 0, false);'),
+            dict(at='loop_body_start', loop=1, kind='ghost', text='let ghost fence0 = in_code_fence;'),
+            dict(at='loop_body_start', loop=1, kind='ghost', text='let ghost tk0 = tokens@;'),
+            dict(at='loop_body_start', loop=1, text='lemma_line_end_is(source@, __ls as int, __e as int); assert(line@ == source@.subrange(__ls as int, __e as int));'),
+            dict(before='continue;', text='if self.inner.sp_det() { assert(unit_toks(&*self.inner, source@, __ls as int, fence0) == (if __e < source@.len() { Seq::<Token>::empty() + unit_toks(&*self.inner, source@, __e + 1, in_code_fence) } else { Seq::<Token>::empty() })); assert(tk0 + Seq::<Token>::empty() =~= tk0); if __e < source@.len() { assert(Seq::<Token>::empty() + unit_toks(&*self.inner, source@, __e + 1, in_code_fence) =~= unit_toks(&*self.inner, source@, __e + 1, in_code_fence)); } }'),
             dict(after='let mut new_tokens', kind='ghost', text='let ghost pl = new_tokens@;'),
             dict(before='new_tokens.iter_mut', kind='ghost', text='let ghost nt0 = new_tokens@;'),
             dict(before='new_tokens.iter_mut', text='''
@@ -69,7 +131,14 @@ UNIT_PARSE = dict(
                 assert forall|i: int, j: int| 0 <= i < j < new_tokens@.len() implies (#[trigger] new_tokens@[i]).span.end <= (#[trigger] new_tokens@[j]).span.start by {
                     assert(nt0[i].span.end <= nt0[j].span.start);
                 }
-                lemma_append_shifted(tokens@, new_tokens@, source@.len() as int, chars_traversed as int, imin(chars_traversed + line@.len() + 1, source@.len() as int));'''),
+                lemma_append_shifted(tokens@, new_tokens@, source@.len() as int, chars_traversed as int, imin(chars_traversed + line@.len() + 1, source@.len() as int));
+                if self.inner.sp_det() {
+                    let here = shift_all(line_toks(&*self.inner, line@) + (if __e < source@.len() { seq![nl_tok(__e - __ls)] } else { Seq::<Token>::empty() }), __ls as int);
+                    assert(nt0 =~= line_toks(&*self.inner, line@) + (if __e < source@.len() { seq![nl_tok(__e - __ls)] } else { Seq::<Token>::empty() }));
+                    assert(new_tokens@ =~= here);
+                    assert(unit_toks(&*self.inner, source@, __ls as int, fence0) == (if __e < source@.len() { here + unit_toks(&*self.inner, source@, __e + 1, in_code_fence) } else { here }));
+                    if __e < source@.len() { assert(tk0 + (here + unit_toks(&*self.inner, source@, __e + 1, in_code_fence)) =~= (tk0 + here) + unit_toks(&*self.inner, source@, __e + 1, in_code_fence)); }
+                }'''),
             ],
 )
 
@@ -100,18 +169,20 @@ def build(repo):
                                                                              note='the front-end contract of C02; proved for PlainEnglish in unit lexing')},
             cfg_not='cfg(feature="concurrent")',
             extra_members='    spec fn sp_parse(&self, source: Seq<char>) -> Seq<Token>;\n    spec fn sp_det(&self) -> bool;')
+    U.raw(OFFSETS, name='spec:unit_toks', props=['C04'])
     U.fn(C + 'mod.rs', 'is_comment_character', dict(props=['C01']))
     U.fn(C + 'mod.rs', 'without_initiators', dict(
-        result='r', external_body=True, props=['C01', 'C02', 'C04'], ensures=['r.start <= r.end', 'r.end <= source@.len()'],
-        assumed='r.start <= r.end <= |source| (so Span::new cannot panic and get_content stays inside the line)',
+        result='r', external_body=True, props=['C01', 'C02', 'C04'], ensures=['r.start <= r.end', 'r.end <= source@.len()', 'r == wi(source@)'],
+        assumed='r.start <= r.end <= |source| (so Span::new cannot panic and get_content stays inside the line); wi(source) is merely a specification-only name for the result (a function of the text)',
         note='iter().position() / iter().rev().position() with a predicate that calls char::is_whitespace twice on the same character: vstd ships a '
              'specification of char::is_whitespace WITHOUT a result function and rejects a second one, so the two scans cannot be related in this Verus; '
              'checked by rac:comment_frontends / rac:prose_offsets only'))
-    U.fn(C + 'unit.rs', 'line_is_code_fence', dict(props=['C01'], slice_matches=True))
+    U.fn(C + 'unit.rs', 'line_is_code_fence', dict(result='r', props=['C01', 'C04'], slice_matches=True, ensures=['r == is_fence(source@)']))
     U.fn(C + 'unit.rs', 'parse_line', PARSE_LINE)
     U.item(C + 'unit.rs', 'struct Unit', derive=())
     U.impl(C + 'unit.rs', 'impl Unit', {'new': dict(result='r', props=['C01'])})
-    U.impl(C + 'unit.rs', 'impl Parser for Unit', {'parse': UNIT_PARSE}, extra_members=SP_MEMBERS)
+    U.impl(C + 'unit.rs', 'impl Parser for Unit', {'parse': UNIT_PARSE},
+           extra_members='    // the Parser contract `sp_det ==> r == sp_parse(source)` then says: every line\'s tokens are exactly the inner parser\'s tokens for the text behind\n    // the markers, moved by the markers\' width plus the line\'s offset; a Newline token on every LF; nothing from fenced lines\n    closed spec fn sp_det(&self) -> bool { self.inner.sp_det() }\n    closed spec fn sp_parse(&self, source: Seq<char>) -> Seq<Token> { unit_toks(&*self.inner, source, 0, false) }')
     U.item(C + 'go.rs', 'struct Go', derive=())
     U.impl(C + 'go.rs', 'impl Parser for Go', {'parse': GO_PARSE}, extra_members=SP_MEMBERS)
     # harper-ls: the git-commit front-end hands everything before the first '#' to the inner parser
